@@ -1,6 +1,7 @@
 package props
 
 import (
+	"strings"
 	"fmt"
 	"runtime/debug"
 	"time"
@@ -18,6 +19,66 @@ import (
 // error — and never panic, whatever Config.Renegotiation says.
 
 var hrrMagic = []byte{0xCF, 0x21, 0xAD, 0x74, 0xE5, 0x9A, 0x61, 0x11, 0xBE, 0x1D, 0x8C, 0x02, 0x1E, 0x65, 0xB8, 0x91, 0xC2, 0xA2, 0x11, 0x16, 0x7A, 0xBB, 0x8C, 0x5E, 0x07, 0x9E, 0x09, 0xE2, 0xC8, 0xA8, 0x33, 0x9C}
+
+// c33OddRecords13 — after a TLS 1.3 handshake the server (which holds the keys) sends records that
+// authenticate but are odd: the AEAD tag alone (empty inner plaintext), then real data.
+func c33OddRecords13() *explore.Scenario {
+	clients := c33Clients()
+	return &explore.Scenario{
+		Name:     "tls13-authenticated-but-odd-records",
+		Watchdog: 60 * time.Second, HangSig: "C33|hang|odd-records",
+		Run: func(x *explore.X) (r explore.Result) {
+			g := clients[x.Choose("client", len(clients))]
+			n := 1 + x.Choose("tag-only-records", 3)
+			what := fmt.Sprintf("%s: %d record(s) consisting of the AEAD tag only, then 4 bytes of data", g.Name, n)
+			scfg := peer.ServerConfig()
+			hs := peer.Run(g.config("example.com"), g.ID, scfg, peer.Opts{KeepOpen: true, Prepare: g.prepare(),
+				ServerAfter: func(s *tls.Conn) error {
+					for i := 0; i < n; i++ {
+						if err := tls.VerifWriteTLS13TagOnlyRecord(s); err != nil {
+							return nil
+						}
+					}
+					s.Write([]byte("ping"))
+					return nil
+				}})
+			defer hs.Finish()
+			if !hs.OK() || hs.U.ConnectionState().Version != tls.VersionTLS13 {
+				r.Obs = "no-tls13-handshake"
+				return
+			}
+			r.Nontrivial = true
+			r.Class = what
+			buf := make([]byte, 64)
+			var obs []string
+			for i := 0; i < 3; i++ {
+				nn, err, pan := func() (nn int, err error, pan string) {
+					defer func() {
+						if e := recover(); e != nil {
+							pan = fmt.Sprintf("%v\n%s", e, debug.Stack())
+						}
+					}()
+					nn, err = hs.U.Read(buf)
+					return
+				}()
+				if pan != "" {
+					r.Violate("C33|client-panic|tls13-odd-record|"+errClass(fmt.Errorf("%s", firstLineOf(pan))), "%s: Read panicked: %s", what, truncStr(pan, 600))
+					return
+				}
+				obs = append(obs, fmt.Sprintf("%d/%s", nn, errClass(err)))
+				if err != nil || nn > 0 {
+					break
+				}
+			}
+			r.Count("odd_records_reads_returned", 1)
+			if len(obs) > 0 && strings.HasPrefix(obs[len(obs)-1], "4/") {
+				r.Count("odd_records_then_data_delivered", 1) // the tag-only records authenticated and were skipped
+			}
+			r.Obs = fmt.Sprint(obs)
+			return
+		},
+	}
+}
 
 var c33RenegAnswers = []string{"nothing", "replayed-first-flight", "server-hello-selects-tls13", "server-hello-selects-tls13-suite-and-share", "hello-retry-request", "second-hello-request", "server-hello-tls11", "finished", "new-session-ticket", "certificate-first", "alert-no-renegotiation", "application-data"}
 
